@@ -110,9 +110,24 @@ def firstSeen : List (Option Int) → List Int
     | some i => if i != 0 then i :: (firstSeen ks).filter (· != i) else firstSeen ks
     | none => firstSeen ks
 
+/-- position of `s` in a list of ids -/
+def rankOf (s : Int) : List Int → Option Nat
+  | [] => none
+  | x :: xs => if x = s then some 0 else (rankOf s xs).map (· + 1)
+
 /-- `find_next_sequence_number`: `max((attr.restrictions.sequence or 0 …), default=0) + 1` -/
 def nextSequenceNumber (baseSeqs : List (Option Int)) : Int :=
   (baseSeqs.foldl (fun m s => max m (match s with | some i => i | none => 0)) 0) + 1
+
+/-- the new `restrictions.sequence` of an attr: the rank of its group added to `next` -/
+def newSequence (groups : List Int) (next : Int) : Option Int → Option Int
+  | some i =>
+    if i != 0 then
+      match rankOf i groups with
+      | some k => some (next + k)
+      | none => some i   -- unreachable: every truthy sequence is in `groups`
+    else some i
+  | none => none
 
 /-- `ResetAttributeSequenceNumbers.process`; `baseSeqs` are the
 `restrictions.sequence` values of `base_attrs(target)` *as they are when this
@@ -121,15 +136,7 @@ def resetSequenceNumbers (baseSeqs : List (Option Int)) (attrs : List SeqAttr) :
   let groups := firstSeen (attrs.map (·.sequence))
   if groups.isEmpty then attrs else
   let next := nextSequenceNumber baseSeqs
-  attrs.map (fun a =>
-    match a.sequence with
-    | some s =>
-      if s != 0 then
-        match groups.idxOf? s with
-        | some k => { a with sequence := some (next + k) }
-        | none => a
-      else a
-    | none => a)
+  attrs.map (fun a => { a with sequence := newSequence groups next a.sequence })
 
 /-- the three handlers in pipeline order, for one class -/
 def sequencePipeline (baseSeqs : List (Option Int)) (attrs : List SeqAttr) : List SeqAttr :=
@@ -140,7 +147,7 @@ def sequencePipeline (baseSeqs : List (Option Int)) (attrs : List SeqAttr) : Lis
 def choiceClasses (attrs : List SeqAttr) : List (Option Nat) :=
   let groups := firstSeen (attrs.map (·.choice))
   attrs.map (fun a => match a.choice with
-    | some c => groups.idxOf? c
+    | some c => rankOf c groups
     | none => none)
 
 /-- what reaches the generated code: occurrence bounds, the sequence number, the choice class -/
